@@ -76,7 +76,8 @@
     printed by harness/C01/main.cpp.  GHOST events (name starts with "g_", emitted in the same atomic step as the
     access they describe, not printed by the harness, filtered by checks/C01.py before the comparison):
       g_slot [r;j;v]     the store of v into slot j of record r
-      g_scan_begin [r]   the sync_.fetch_add that opens basic_smr::scan( r )       g_scan_end [r]   its return
+      g_scan_begin [r]   the sync_.fetch_add that opens basic_smr::scan( r )
+      g_scan_end (r :: kept)   its return, with the retired cells it left in the array
     They make "slot (r,j) held v at every step between s and d" and "the scan that began at s" predicates on the
     trace. *)
 From Coq Require Import ZArith List String Bool Lia PeanoNat.
@@ -288,13 +289,14 @@ Section Programs.
   Definition classic_kept (plist l : list Z) : list Z := filter (fun p => memZ p plist) l.
   Definition classic_freed (plist l : list Z) : list Z := filter (fun p => negb (memZ p plist)) l.
 
-  Definition classic_scan (r : nat) : prog unit :=
+  (** returns the cells kept *)
+  Definition classic_scan (r : nat) : prog (list Z) :=
     Act a_ld_head (fun v =>
       bind (recs_loop (vR v) []) (fun plist =>
         Act (a_ld_cur r) (fun v2 =>
           let l := vL v2 in
           Emit (map ev_dispose (classic_freed plist l))
-            (Act (a_st_cur r (classic_kept plist l)) (fun _ => Ret tt))))).
+            (Act (a_st_cur r (classic_kept plist l)) (fun _ => Ret (classic_kept plist l)))))).
 
   (** in-place: the hazard values seen, in order, are applied to the sorted array with lower_bound + mark *)
   Definition unmarked (l : list Z) : list (Z * bool) := map (fun p => (p, false)) l.
@@ -303,11 +305,11 @@ Section Programs.
   Definition inplace_kept (cells : list (Z * bool)) : list Z := map fst (filter snd cells).
   Definition inplace_freed (cells : list (Z * bool)) : list Z := map fst (filter (fun x => negb (snd x)) cells).
 
-  Definition inplace_scan (r : nat) : prog unit :=
+  Definition inplace_scan (r : nat) : prog (list Z) :=
     Act (a_ld_cur r) (fun v0 =>
       let l := vL v0 in
       match l with
-      | [] => Ret tt
+      | [] => Ret []
       | _ :: _ =>
           if existsb Z.odd l then classic_scan r
           else
@@ -316,13 +318,13 @@ Section Programs.
               bind (recs_loop (vR v) []) (fun hs =>
                 let cells := apply_marks hs (unmarked sl) in
                 Emit (map ev_dispose (inplace_freed cells))
-                  (Act (a_st_cur r (inplace_kept cells)) (fun _ => Ret tt))))
+                  (Act (a_st_cur r (inplace_kept cells)) (fun _ => Ret (inplace_kept cells)))))
       end).
 
   Definition scan (r : nat) : prog unit :=
     Act (a_faa_scan r) (fun _ =>
-      bind (if cInplace c then inplace_scan r else classic_scan r) (fun _ =>
-        Emit [EvCli "g_scan_end" [zn r]] (Ret tt))).
+      bind (if cInplace c then inplace_scan r else classic_scan r) (fun kept =>
+        Emit [EvCli "g_scan_end" (zn r :: kept)] (Ret tt))).
 
   (** *** retired_array::push; [None] = past the capacity (undefined behaviour in C++) *)
   Definition push (r : nat) (p : Z) : prog (option bool) :=
